@@ -381,6 +381,15 @@ def write_evidence(prop, tier, seed, results: List[Result], wall, mod):
         "wall_s": round(wall, 2),
         "violations": sum(1 for r in results if r.status == "violation"),
     }
+    if tier == "thorough":
+        from vf.registry import thorough_selection
+
+        _sel, not_run = thorough_selection(prop)
+        ev["coverage"]["defined_not_run"] = {
+            "count": len(not_run),
+            "why": "deeper obligations that exceed the per-property CPU budget of the registered thorough command (VF_THOROUGH_BUDGET / VF_THOROUGH_MAX_TIMEOUT raise it) or are listed in vf/thorough_excluded.json; outside the claim",
+            "ids": [o.key for o in not_run][:400],
+        }
     os.makedirs(os.path.join(VERIF, "evidence"), exist_ok=True)
     json.dump(ev, open(os.path.join(VERIF, "evidence", f"{prop}.json"), "w"), indent=1, default=str)
 
